@@ -33,7 +33,7 @@ pub const ROOT_LADDER: &str = "3rk3/3r4/8/8/8/8/3Q4/3RK3 w - - 0 1";
 /// capture (Qxd7, Rxd7 ...) takes it below the endgame threshold: the phase switch happens inside the explored lines
 pub const ROOT_LADDER_OPEN: &str = "2nrk3/3r1p2/8/8/8/8/3Q1P2/2NRK3 w - - 0 1";
 pub const ROOT_KRK: &str = "8/8/8/4k3/8/8/8/R3K3 w - - 0 1";
-pub const ROOT_KQK: &str = "8/8/8/4k3/8/8/8/Q3K3 w - - 0 1";
+pub const ROOT_KQK: &str = "8/8/8/4k3/8/8/8/1Q2K3 w - - 0 1";
 pub const ROOT_KPK: &str = "8/8/8/4k3/8/8/4P3/4K3 w - - 0 1";
 pub const ROOT_KPKP: &str = "8/4p3/8/4k3/8/8/3P4/4K3 w - - 0 1";
 
